@@ -640,6 +640,7 @@ class _ParamUpdater(Thread):
         self.cf.add_port_callback(CRTPPort.PARAM, self._new_packet_cb)
         self._should_close = False
         self._lock_pattern = None
+        self._lock_channel = None
 
     def close(self):
         # First empty the queue from all packets
@@ -676,7 +677,8 @@ class _ParamUpdater(Thread):
             else:
                 release_pattern = pk.data[:1]
 
-            if (pk.channel != TOC_CHANNEL and self._lock_pattern == release_pattern and
+            # The answer comes on the channel of the request, a (late) read answer does not answer a write
+            if (pk.channel == self._lock_channel and self._lock_pattern == release_pattern and
                     pk is not None):
                 self.updated_callback(pk)
                 self._lock_pattern = None
@@ -711,6 +713,7 @@ class _ParamUpdater(Thread):
             pk = self.request_queue.get()  # Wait for request update
             self.wait_lock.acquire()
             if self.cf.link:
+                self._lock_channel = pk.channel
                 if self._useV2:
                     if pk.channel == MISC_CHANNEL:
                         self._lock_pattern = pk.data[:3]
